@@ -1,8 +1,13 @@
-//! l2: runtime monitors; usage: l2 <property> --seed S --tier quick|thorough --shard i --shards n [--budget N] --out frag.json [--replay file]
+//! l2: whole-stack simulator monitors; usage: l2 <property> --seed S --tier quick|thorough --shard i --shards n [--budget N] --out frag.json [--replay file]
 mod c02;
 mod c15;
 mod c17;
 mod c20;
+pub mod oracle;
+pub mod scenario;
+pub mod sim;
+pub mod world;
+pub mod workload;
 
 use vcore::{Args, Report};
 
@@ -16,6 +21,7 @@ fn main() {
         "c15" => c15::run(&args, &mut rep),
         "c17" => c17::run(&args, &mut rep),
         "c20" => c20::run(&args, &mut rep),
+        "smoke" => workload::smoke(&args, &mut rep),
         other => {
             eprintln!("unknown property {other}");
             std::process::exit(2);
